@@ -751,9 +751,17 @@ def sanitize_string_doc(c):
     d["o"] = [kv for kv in d["o"] if not (kv["k"] in seen or seen.add(kv["k"]))]
 
 
+MAX_FORM_VALUES = 2048     # rest/httpx/util.go maxFormParamCount
+MAX_BODY = 8 << 20         # rest/httpx/requests.go maxBodyLen
+
+
 def finish(c):
     """derive the text sent to the implementation and the document tree given to Coq"""
     mode = c["mode"]
+    if mode == "seq":
+        for st in c["steps"]:
+            finish(st)
+        return c
     if mode in STRING_MODES:
         sanitize_string_doc(c)
     if mode in ("json", "httpx-json"):
@@ -770,6 +778,15 @@ def model_doc(c):
     mode = c["mode"]
     if mode == "httpx-json" and c.get("raw") == "":
         return dobj([])          # no body: ParseJsonBody unmarshals the nil map
+    if mode == "httpx-json" and c.get("pad") and len(c["raw"]) + c["pad"] > MAX_BODY:
+        return None              # the body is cut at maxBodyLen: the decoder sees a truncated stream
+    if mode == "httpx-form" and c.get("repeat") and d is not None:
+        n = c["repeat"]["n"] if c["repeat"]["val"] != "" else 0
+        for kv in d["o"]:
+            v = kv["v"]
+            n += len([x for x in ([v] if "s" in v else v["a"]) if x["s"] != ""])
+        if n > MAX_FORM_VALUES:
+            return None          # GetFormValues: "too many form values"
     if d is None:
         return None
     if mode == "httpx-form":
@@ -932,6 +949,113 @@ def systematic(rng):
     return cases
 
 
+def sequences(rng, n):
+    """2-3 requests through the same process: earlier ones end in each error class (or succeed)
+    and carry keys / values that the last one omits"""
+    g = Gen(rng, "quick")
+    cases = []
+    i = P("int")
+
+    def family(mode):
+        return St(F("a", i, O(range=R("[1:5]"))), F("b", i, O(**{"def": "7"})),
+                  F("c", P("string"), O(opt=True)), F("d", P("int8"), O(opt=True, options=["1", "2"])),
+                  F("e", Ptr(i), O(opt=True, dep="d")))
+
+    def val(mode, lit, string=False):
+        if mode in ("httpx-json",):
+            return ds(lit) if string else dn(lit)
+        return ds(lit)
+
+    def full(mode, a="3"):
+        return [("a", val(mode, a)), ("b", val(mode, "9")), ("c", val(mode, "stale", True)), ("d", val(mode, "2")),
+                ("e", val(mode, "4"))]
+
+    def step(mode, pairs, st=None, **kw):
+        c = {"mode": mode, "type": copy.deepcopy(st or family(mode)), "doc": dobj(pairs)}
+        c.update(kw)
+        return c
+
+    for k in range(n):
+        mode = ["httpx-form", "httpx-json", "httpx-header", "httpx-path", "httpx-form", "httpx-json"][k % 6]
+        direct = (k // 6) % 2 == 1
+        steps = []
+        for _ in range(rng.choice([1, 1, 2])):
+            kind = rng.choice(["range", "type", "missing", "ok", "option", "big"])
+            if kind == "range":
+                steps.append(step(mode, full(mode, "100")))
+            elif kind == "type":
+                steps.append(step(mode, full(mode, "abc") if mode != "httpx-json" else
+                                  [("a", ds("abc"))] + full(mode)[1:]))
+            elif kind == "missing":
+                steps.append(step(mode, full(mode)[1:]))
+            elif kind == "option":
+                steps.append(step(mode, full(mode)[:3] + [("d", val(mode, "5")), ("e", val(mode, "4"))]))
+            elif kind == "ok":
+                steps.append(step(mode, full(mode)))
+            elif mode == "httpx-form":
+                # too many form values: the rejected request carries every key
+                steps.append(step(mode, full(mode), repeat={"key": rng.choice(["x", "c", "zz"]), "val": "v",
+                                                            "n": rng.choice([MAX_FORM_VALUES, MAX_FORM_VALUES + 50])}))
+            elif mode == "httpx-json":
+                if rng.random() < 0.12:
+                    steps.append(step(mode, full(mode), pad=MAX_BODY))          # oversized body
+                else:
+                    st = step(mode, full(mode))
+                    st["raw"] = raw_json(st["doc"])[:-rng.randint(1, 6)]         # malformed body
+                    st["doc"] = None
+                    steps.append(st)
+            else:
+                steps.append(step(mode, full(mode, "0")))
+        last = rng.choice([[("a", "3")], [("a", "5")], [], [("a", "2"), ("c", "own")], [("a", "1"), ("d", "1"), ("e", "8")],
+                           [("d", "1")], [("a", "4"), ("b", "1")]])
+        steps.append(step(mode, [(key, val(mode, lit, key == "c")) for key, lit in last]))
+        for st in steps:
+            st["direct"] = direct
+        cases.append(finish({"mode": "seq", "procs1": k % 2 == 0, "steps": steps, "intent": "sequence"}))
+    # the two front-end rejections, systematically: too many form values / oversized or cut body,
+    # each followed by requests that omit what the rejected one carried
+    lasts = [[("a", "3")], [], [("a", "2"), ("c", "own")], [("d", "1")]]
+    for procs1 in (True, False):
+        for direct in (False, True):
+            for li, last in enumerate(lasts):
+                big = step("httpx-form", full("httpx-form"),
+                           repeat={"key": ["x", "c", "a", "zz"][li], "val": "v", "n": MAX_FORM_VALUES + li})
+                tail = step("httpx-form", [(key, val("httpx-form", lit, key == "c")) for key, lit in last])
+                steps = [big, tail] if li % 2 == 0 else [big, copy.deepcopy(tail), tail]
+                for st in steps:
+                    st["direct"] = direct
+                cases.append(finish({"mode": "seq", "procs1": procs1, "steps": steps, "intent": "sequence"}))
+                cut = step("httpx-json", full("httpx-json"))
+                if li == 0 and direct:
+                    cut["pad"] = MAX_BODY
+                else:
+                    cut["raw"] = raw_json(cut["doc"])[:-(li + 1)]
+                    cut["doc"] = None
+                tail = step("httpx-json", [(key, val("httpx-json", lit, key == "c")) for key, lit in last])
+                steps = [cut, tail]
+                for st in steps:
+                    st["direct"] = direct
+                cases.append(finish({"mode": "seq", "procs1": procs1, "steps": steps, "intent": "sequence"}))
+    # random types: a request with one violation, then a valid one reduced to what it must supply
+    for k in range(n // 2):
+        mode = rng.choice(["httpx-form", "httpx-json", "httpx-header", "httpx-path"])
+        st = g.gen_struct(1 if mode == "httpx-json" else 0, mode, rng.randint(2, 4))
+        nf = g.count_fields(st["f"])
+        bad = (rng.randrange(nf), rng.choice(["range", "option", "type", "overflow", "missing", "present"]))
+        first = {"mode": mode, "type": copy.deepcopy(st), "doc": g.object_for(st["f"], mode, bad)}
+        second_doc = g.object_for(st["f"], mode)
+        keep = []
+        for kv in second_doc["o"]:
+            f = next((f for f, _ in flat_fields(st["f"]) if f["key"] == kv["k"]), None)
+            if f is not None and (f["o"] is None or not (f["o"]["opt"] or f["o"]["def"] is not None) or rng.random() < 0.3):
+                keep.append(kv)
+        second = {"mode": mode, "type": copy.deepcopy(st), "doc": {"o": keep}}
+        direct = rng.random() < 0.5
+        first["direct"] = second["direct"] = direct
+        cases.append(finish({"mode": "seq", "procs1": rng.random() < 0.5, "steps": [first, second], "intent": "sequence"}))
+    return cases
+
+
 class C08(Property):
     id = "C08"
     title = "Declarative validation: accepted input always satisfies the field constraints"
@@ -1028,7 +1152,9 @@ class C08(Property):
         return [finish(c) for c in cs]
 
     def gen(self, rng, n, tier):
-        cases = []
+        # sequences first: a state leak between requests is then reported as a self-contained
+        # sequence rather than as a later single request polluted by its predecessors
+        cases = sequences(rng, 120 if tier != "thorough" else 1200)
         if tier in ("quick", "thorough"):
             cases += systematic(rng)
         g = Gen(rng, "thorough" if tier == "thorough" else "quick")
@@ -1038,19 +1164,48 @@ class C08(Property):
 
     # ---- execution ----------------------------------------------------------------
     def execute(self, cases, ctx):
-        payload = [{"id": i, "mode": c["mode"], "type": c["type"], "doc": c.get("doc"), "raw": c.get("raw")}
-                   for i, c in enumerate(cases)]
-        rc, out, res = vlib.go_run(self.bin, payload, tag="c08", timeout=900)
-        if rc != 0 or len(res) != len(cases):
-            raise ExecError("c08 executor rc=%s: %s" % (rc, out[-2000:]))
+        def wire(c, i):
+            if c["mode"] == "seq":
+                return {"id": i, "mode": "seq", "procs1": bool(c.get("procs1")),
+                        "steps": [wire(st, j) for j, st in enumerate(c["steps"])]}
+            return {"id": i, "mode": c["mode"], "type": c["type"], "doc": c.get("doc"), "raw": c.get("raw"),
+                    "direct": bool(c.get("direct")), "pad": int(c.get("pad") or 0), "repeat": c.get("repeat")}
+
+        payload = [wire(c, i) for i, c in enumerate(cases)]
+        if len(payload) <= 320:
+            # small batches (shrink candidates, replays): one process per case, so that state the
+            # implementation might keep between requests cannot leak from one candidate into another
+            import concurrent.futures
+
+            def one(i):
+                rc, out, res = vlib.go_run(self.bin, [payload[i]], tag="c08i%d" % i, timeout=300)
+                if rc != 0 or len(res) != 1:
+                    raise ExecError("c08 executor rc=%s: %s" % (rc, out[-2000:]))
+                return res[0]
+
+            with concurrent.futures.ThreadPoolExecutor(max_workers=8) as ex:
+                res = list(ex.map(one, range(len(payload))))
+        else:
+            rc, out, res = vlib.go_run(self.bin, payload, tag="c08", timeout=900)
+            if rc != 0 or len(res) != len(cases):
+                raise ExecError("c08 executor rc=%s: %s" % (rc, out[-2000:]))
         obs = []
         for r in res:
             if r.get("fail"):
                 raise ExecError("c08 executor: case %s: %s" % (r.get("id"), r["fail"]))
-            obs.append({"verdict": r["verdict"], "val": r.get("val"), "err": r.get("err", ""), "tag": r.get("tag", "")})
+            one = lambda x: {"verdict": x["verdict"], "val": x.get("val"), "err": x.get("err", ""), "tag": x.get("tag", "")}
+            if r["verdict"] == "seq":
+                obs.append({"verdict": "seq", "steps": [one(x) for x in r["steps"]]})
+            else:
+                obs.append(one(r))
         return obs
 
     def coq_case(self, case, obs):
+        if case["mode"] == "seq":
+            return clist([self.coq_step(st, o) for st, o in zip(case["steps"], obs["steps"])])
+        return clist([self.coq_step(case, obs)])
+
+    def coq_step(self, case, obs):
         mode = case["mode"]
         cfg = "(mkCfg %s %s %s)" % (cbool(mode in STRING_MODES), cbool(mode in ("form", "httpx-form")),
                                     cbool(mode in ("header", "httpx-header")))
@@ -1080,18 +1235,39 @@ class C08(Property):
         return acc
 
     def nontrivial(self, case, obs):
+        if case["mode"] == "seq":
+            # an earlier request carries a key that the last one omits
+            def keys(st):
+                d = model_doc(st) if st.get("doc") is not None else st.get("doc")
+                d = d or st.get("doc")
+                return set(kv["k"] for kv in d["o"]) if d and "o" in d else set()
+            last = keys(case["steps"][-1])
+            return len(case["steps"]) > 1 and any(keys(st) - last for st in case["steps"][:-1])
         acc = self._field_stats(case["type"]["f"], {})
         d = model_doc(case)
         supplied = bool(d and "o" in d and any(kv["k"] != "extra" for kv in d["o"]))
         return bool((acc.get("combo") or acc.get("composite")) and supplied)
 
     def features(self, case, obs):
+        if case["mode"] == "seq":
+            fs = ["mode=seq", "seq:" + case["steps"][-1]["mode"], "seq:len=%d" % len(case["steps"]),
+                  "seq:procs1=%s" % bool(case.get("procs1")), "seq:direct=%s" % bool(case["steps"][0].get("direct"))]
+            fs += ["seq:earlier=" + o["verdict"] for o in obs["steps"][:-1]]
+            fs.append("seq:last=" + obs["steps"][-1]["verdict"])
+            if any(st.get("repeat") for st in case["steps"]):
+                fs.append("seq:too-many-form-values")
+            if any(st.get("pad") for st in case["steps"]):
+                fs.append("seq:oversized-body")
+            return fs
         acc = self._field_stats(case["type"]["f"], {})
         fs = ["mode=" + case["mode"], "verdict=" + obs["verdict"], "intent=" + str(case.get("intent", "corpus"))]
         fs += ["type:" + k for k in sorted(acc)]
         return fs
 
     def describe_failure(self, case, obs):
+        if case["mode"] == "seq":
+            return ("a request of a sequence served by one process was not decided on its own document alone "
+                    "(verdicts: %s)" % [o["verdict"] for o in obs["steps"]])
         if obs["verdict"] == "panic":
             return "the unmarshaller panicked: %s" % obs.get("err", "")
         if obs["verdict"] == "ok":
@@ -1102,6 +1278,26 @@ class C08(Property):
     # ---- shrinking ---------------------------------------------------------------------
     def shrink_candidates(self, case):
         res = []
+        if case["mode"] == "seq":
+            steps = case["steps"]
+            for i in range(len(steps)):
+                if len(steps) > 1:
+                    c = copy.deepcopy(case)
+                    c.pop("id", None)
+                    del c["steps"][i]
+                    res.append(c)
+            for i, st in enumerate(steps):
+                if st.get("doc") and "o" in st["doc"]:
+                    for j in range(len(st["doc"]["o"])):
+                        c = copy.deepcopy(case)
+                        c.pop("id", None)
+                        del c["steps"][i]["doc"]["o"][j]
+                        c["steps"][i].pop("raw", None)
+                        try:
+                            res.append(finish(c))
+                        except ValueError:
+                            pass
+            return res[:100]
 
         def variant(mut):
             c = copy.deepcopy(case)
